@@ -30,8 +30,43 @@ P = {
          "Rows are flagged revoked directly in the raw store under live, long-lived sessions; for every later record the oracle decides from the record, raw rows, flip log and virtual clock whether a key revoked more than 1 (IK) / 2 (parent SK) revoke-check intervals ago is still named although a later stamp was creatable; records under revoked keys must still decrypt. Matrix: 6 configurations x {latest/older IK/SK} x 5 flip offsets x other-process-rotated, then an encrypt every R/4 for 4R.",
          "Trusted: testing/synctest clock. Known finding F11 (decrypt-path seeding of the 'latest' alias) is listed in known_findings.json and reproduced deterministically on every run.",
          "3/C05"),
+ "C02": ("faults", "fault_enumeration",
+         "fault enumeration (every call index x every fault kind, then every second fault) over monitored metastore/KMS/AEAD with a raw-store audit and a crash-model decrypt",
+         "For 9 key states x 3 cache configurations a clean run records the external-call trace of the encrypt under test; every call index then gets every fault kind valid for it (error, false-without-write, write-then-error, write-then-false, one-precision-unit latency) and, depth-first, every second fault at each later call of the faulted run (sampled in quick, complete in thorough). After each execution the raw store is audited for the IK and SK rows named by the returned record, a brand-new cache-less factory (crash) must decrypt it, a failed op must return (nil, err), and after faults stop the next encrypt and earlier records must work on the same session.",
+         "Trusted: testing/synctest clock; faults fail without partial effect except the explicit write-then-error kinds; partial writes inside a real database are out of reach.",
+         "3/C02"),
+ "C09": ("faults", "fault_enumeration",
+         "leak ledger (tracking SecretFactory) over fault enumeration incl. allocator and AEAD faults, duplicate-key schedules, with call-site attribution through a tagged hook",
+         "Every secret the SDK allocates goes through a ledger wrapped around the real memguard factory. Over the C02 cells plus decrypt ops and a session-cache configuration, every single fault position in metastore/KMS/AEAD/allocator (pairs sampled in quick, all in thorough) and over 2-process duplicate-key schedules: the data key must be closed when the call returns, with caching disabled every secret of the call must be closed at return, and after session+factory Close (asynchronous teardown quiesced with synctest.Wait) every secret must have been closed and never touched afterwards.",
+         "Known finding F7b (reference on the re-resolved parent SK never released) is attributed through the ikfromekr.reresolved_sk hook and listed in known_findings.json; any other leak fails the check.",
+         "3/C09"),
+ "C10": ("faults", "fault_enumeration",
+         "retained-buffer scan: monitors keep the very slices that held key plaintext and read them at return, over fault enumeration and over fake regional AWS KMS clients",
+         "The AEAD, KMS and SecretFactory monitors retain every slice that carried key plaintext (argument of SecretFactory.New, AEAD.Decrypt outputs other than the caller's payload, KMS.DecryptKey outputs, GenerateDataKey/Decrypt Plaintext of the fake AWS clients) and check they are all-zero when the public call returns, for every single fault position (pairs sampled/complete) in metastore/KMS/AEAD/allocator over encrypt and decrypt ops, and for every wrap/unwrap failure combination of both AWS plug-ins up to 2 (quick) / 3 (thorough) regions.",
+         "Holding the reference keeps the memory from being recycled, so reading it after the call is sound. Only buffers that cross a monitored interface are visible.",
+         "3/C10"),
+ "C13": ("mstore", "exploration",
+         "reference-table monitor (bounded-exhaustive + random sequences) per backend over a mini SQL engine / semantic DynamoDB fake; porcupine linearizability check of concurrent histories; race detector",
+         "Memory, SQL (MySQL/Postgres/Oracle placeholder dialects) and both DynamoDB metastores are driven with every Store/Load/LoadLatest sequence up to the tier's length over 2 ids x 3 stamps, seeded random sequences with binary keys/flags/parent meta, all compared call-by-call with a reference insert-only table; concurrent 8-client histories are checked per id with porcupine and racing duplicate inserts must have exactly one winner; the DynamoDB fake serves non-ConsistentRead reads one write behind so a dropped consistency flag is observable.",
+         "Trusted: the mini SQL engine and the DynamoDB fake (written from documented semantics). Real databases are out of reach offline.",
+         "3/C13"),
+ "C14": ("faults", "exploration",
+         "controlled scheduler: every interleaving of metastore calls of 2-3 processes enumerated depth-first with replay (gates in the metastore monitor, synctest.Wait as quiescence)",
+         "Each process is a goroutine with its own factory over one gated metastore in one virtual-time bubble; the controller releases exactly one parked metastore call per step and enumerates all schedules depth-first (quick truncates per cell; thorough completes the 2-process cells) from cold / expired / revoked / stale-cache starting states. After each schedule: no encrypt failed, every record's IK and SK rows exist, every process and a fresh factory decrypt every record, no stored row changed.",
+         "Processes = separate factories sharing store+KMS; sessions of one factory share mutexes and are covered by C08's stress part instead.",
+         "3/C14"),
+ "C17": ("awskms", "fault_enumeration",
+         "exhaustive regional failure enumeration over fake AWS KMS clients behind both plug-in client interfaces, cross-version",
+         "For 1..3 (quick) / 1..4 (thorough) regions: every preferred region x every subset failing GenerateDataKey x every subset failing Encrypt; for each envelope every non-empty configured subset x preferred x every subset failing Decrypt, for v1->v1, v2->v2, v1->v2, v2->v1 and several builds (map orders). Oracle over results and the per-region call log: success iff a configured region with an entry can decrypt, identical bytes, preferred-first order for Decrypt and GenerateDataKey, envelope entries = regions that succeeded, plaintext data key wiped, SK bytes never in a request.",
+         "Trusted: fake regional clients written from the KMS API semantics. Real AWS is out of reach.",
+         "3/C17"),
+ "C20": ("hist", "exploration",
+         "exact call-count oracle from metastore/KMS monitors in virtual time, attributed to the key-cache scope, plus a barrier schedule at the lock-free hook point of GetOrLoad",
+         "A producer creates keys and records; a cold factory under test with 1-3 sessions for 1-20 partitions runs seeded mixes of encrypts/decrypts with clock advances strictly before, just after and long after loadedAt+interval for per-session, shared, session-cached and uncached configurations. Repeats of an op that already succeeded must make 0 external calls inside the interval, exactly 1 read of the key's record on first use after it, never a Store; one KMS unwrap per SK per factory per interval; without caching every call loads and retains no secret.",
+         "Keys never expire and nothing is revoked in these scenarios so that every call is attributable to caching.",
+         "3/C20"),
 }
-CLAIMED = ["C01", "C03", "C04", "C05", "C15"]
+CLAIMED = ["C01", "C02", "C03", "C04", "C05", "C09", "C10", "C13", "C14", "C15", "C17", "C20"]
 PENDING_REASON = "check not built yet in this round (work in progress; see DESIGN.md section 3 for the planned monitor)"
 
 checks = []
